@@ -466,6 +466,8 @@ func TestVerifC31(t *testing.T) {
 		}
 	}
 	st["e_cases"] = ne
+	// directed stream: degenerate operands for every opcode of every version (all tiers)
+	vRunDegenerate(out, st)
 	n := vEnvInt("VERIF_C31_N", 6000)
 	for i := 0; i < n; i++ {
 		vRunF(out, st, r)
@@ -484,4 +486,266 @@ func TestVerifC31(t *testing.T) {
 	sort.Strings(trusted)
 	stats["trusted_ops"] = trusted
 	vStats(stats)
+}
+
+// ---------------------------------------------------------------- degenerate operands
+// For EVERY opcode of every version (arg types and immediates taken from the running table):
+// programs that push combinations of degenerate operands of the right types and then execute
+// the op.  Byte operands: empty, 1 byte, the documented length (the declared bound, else the
+// curve point / scalar sizes 32/64/96/128/192) and that length +-1, 4096 bytes, all-zero and
+// all-0xff; ints: 0, 1, 2^32, 2^63, 2^64-1; every field / group immediate takes each of its
+// values.  The full product when it is small, otherwise all-equal diagonals, one-at-a-time
+// variations around a baseline and all pairs of the first two operands.
+type vOperand struct {
+	isInt bool
+	u     uint64
+	n     int
+	fill  byte
+}
+
+func vOperandValues(st StackType, wide bool) []vOperand {
+	ints := []vOperand{{isInt: true, u: 0}, {isInt: true, u: 1}, {isInt: true, u: 1 << 32}, {isInt: true, u: 1 << 63}, {isInt: true, u: ^uint64(0)}}
+	if st.AVMType == avmUint64 {
+		return ints
+	}
+	var lens []int
+	if st.Bound[0] > 0 && st.Bound[0] == st.Bound[1] && st.Bound[0] < 4096 {
+		l := int(st.Bound[0])
+		lens = []int{0, 1, l - 1, l, l + 1, 4096}
+	} else {
+		lens = []int{0, 1, 32, 64, 96, 128, 192, 4096}
+		if wide {
+			lens = append(lens, 31, 33, 63, 65, 95, 97, 127, 129, 191, 193, 4095)
+		}
+	}
+	var out []vOperand
+	seen := map[int]bool{}
+	for _, l := range lens {
+		if l < 0 || seen[l] {
+			continue
+		}
+		seen[l] = true
+		out = append(out, vOperand{n: l, fill: 0})
+		if l > 0 {
+			out = append(out, vOperand{n: l, fill: 0xff})
+		}
+	}
+	if st.AVMType == avmAny {
+		out = append([]vOperand{{isInt: true, u: 0}, {isInt: true, u: 1}, {isInt: true, u: ^uint64(0)}}, out[:5]...)
+	}
+	return out
+}
+
+// vDegenerateProgram assembles: version; intcblock; bytecblock; pushes; op with immediates
+func vDegenerateProgram(v uint64, spec *OpSpec, ops []vOperand, fimm int, fval byte) []byte {
+	ints := []uint64{1}
+	var bytess [][]byte
+	intIdx := func(x uint64) int {
+		for i, y := range ints {
+			if y == x {
+				return i
+			}
+		}
+		ints = append(ints, x)
+		return len(ints) - 1
+	}
+	var body []byte
+	for _, o := range ops {
+		switch {
+		case o.isInt:
+			body = append(body, 0x21, byte(intIdx(o.u)))
+		case o.n > 64 && v >= 4: // bzero (and b~ for the all-ones fill): short programs for long operands
+			body = append(body, 0x21, byte(intIdx(uint64(o.n))), 0xaf)
+			if o.fill == 0xff {
+				body = append(body, 0xae)
+			}
+		default:
+			b := make([]byte, o.n)
+			for i := range b {
+				b[i] = o.fill
+			}
+			bytess = append(bytess, b)
+			body = append(body, 0x27, byte(len(bytess)-1))
+		}
+	}
+	prog := vUvarint(v)
+	prog = append(prog, 0x20)
+	prog = append(prog, vUvarint(uint64(len(ints)))...)
+	for _, i := range ints {
+		prog = append(prog, vUvarint(i)...)
+	}
+	if len(bytess) > 0 {
+		prog = append(prog, 0x26)
+		prog = append(prog, vUvarint(uint64(len(bytess)))...)
+		for _, b := range bytess {
+			prog = append(prog, vUvarint(uint64(len(b)))...)
+			prog = append(prog, b...)
+		}
+	}
+	prog = append(prog, body...)
+	prog = append(prog, spec.Opcode)
+	if spec.SubOpcode != 0 {
+		prog = append(prog, spec.SubOpcode)
+	}
+	for i, im := range spec.Immediates {
+		if i == fimm {
+			prog = append(prog, fval)
+			continue
+		}
+		switch im.kind {
+		case immByte, immInt8, immVarintLabel, immLabels:
+			prog = append(prog, 0)
+		case immLabel:
+			prog = append(prog, 0, 0)
+		case immInt:
+			prog = append(prog, 1)
+		case immBytes:
+			prog = append(prog, 1, 0x61)
+		case immInts:
+			prog = append(prog, 1, 7)
+		case immBytess:
+			prog = append(prog, 1, 1, 0x61)
+		}
+	}
+	return prog
+}
+
+func vDegenerateCombos(spec *OpSpec) [][]vOperand {
+	n := len(spec.Arg.Types)
+	if n == 0 {
+		return [][]vOperand{nil}
+	}
+	vals := make([][]vOperand, n)
+	total := 1
+	for i, st := range spec.Arg.Types {
+		vals[i] = vOperandValues(st, false)
+		total *= len(vals[i])
+	}
+	var out [][]vOperand
+	if total <= 320 {
+		idx := make([]int, n)
+		for {
+			c := make([]vOperand, n)
+			for i := range c {
+				c[i] = vals[i][idx[i]]
+			}
+			out = append(out, c)
+			k := n - 1
+			for k >= 0 {
+				idx[k]++
+				if idx[k] < len(vals[k]) {
+					break
+				}
+				idx[k] = 0
+				k--
+			}
+			if k < 0 {
+				break
+			}
+		}
+	} else {
+		base := make([]vOperand, n)
+		for i := range base {
+			base[i] = vals[i][len(vals[i])/2]
+		}
+		// diagonals: the j-th value of every operand
+		maxLen := 0
+		for i := range vals {
+			if len(vals[i]) > maxLen {
+				maxLen = len(vals[i])
+			}
+		}
+		for j := 0; j < maxLen; j++ {
+			c := make([]vOperand, n)
+			for i := range c {
+				c[i] = vals[i][j%len(vals[i])]
+			}
+			out = append(out, c)
+		}
+		// one at a time
+		for i := range vals {
+			for _, x := range vals[i] {
+				c := append([]vOperand{}, base...)
+				c[i] = x
+				out = append(out, c)
+			}
+		}
+		// all pairs of the first two operands and of the last two
+		pairs := [][2]int{{0, 1}}
+		if n > 2 {
+			pairs = append(pairs, [2]int{n - 2, n - 1})
+		}
+		for _, pr := range pairs {
+			for _, x := range vals[pr[0]] {
+				for _, y := range vals[pr[1]] {
+					c := append([]vOperand{}, base...)
+					c[pr[0]], c[pr[1]] = x, y
+					out = append(out, c)
+				}
+			}
+		}
+	}
+	// one-at-a-time off-by-one lengths around the documented sizes
+	for i, st := range spec.Arg.Types {
+		if st.AVMType != avmBytes {
+			continue
+		}
+		for _, x := range vOperandValues(st, true) {
+			if x.fill != 0 || x.n%2 == 0 && x.n != 4096 {
+				continue
+			}
+			c := make([]vOperand, n)
+			for k := range c {
+				c[k] = vals[k][len(vals[k])/2]
+			}
+			c[i] = x
+			out = append(out, c)
+		}
+	}
+	return out
+}
+
+func vRunDegenerate(out *vOut, st map[string]int) {
+	nd := 0
+	for v := uint64(0); v <= LogicVersion; v++ {
+		for _, spec := range vAvail(v) {
+			if spec.Version != v && v != LogicVersion {
+				continue // each distinct spec at the version that introduced it and at the newest version
+			}
+			combos := vDegenerateCombos(spec)
+			fimm := -1
+			fvals := []byte{0}
+			for i, im := range spec.Immediates {
+				if im.Group != nil {
+					fimm = i
+					fvals = nil
+					for j, name := range im.Group.Names {
+						if name != "" {
+							fvals = append(fvals, byte(j))
+						}
+					}
+				}
+			}
+			if len(spec.Arg.Types) == 0 && fimm >= 0 {
+				continue // pure field reads are swept by C34
+			}
+			// keep ops with many fields and many operand combinations bounded
+			for len(combos)*len(fvals) > 1500 && len(combos) > 40 {
+				combos = combos[:len(combos)*3/4]
+			}
+			for _, mode := range []RunMode{ModeSig, ModeApp} {
+				if spec.Modes&mode == 0 {
+					continue
+				}
+				for _, f := range fvals {
+					for _, c := range combos {
+						prog := vDegenerateProgram(v, spec, c, fimm, f)
+						vRunFProg(out, st, "d", prog, vLsigArgs(), true, mode, LogicVersion, 3000000, true, false)
+						nd++
+					}
+				}
+			}
+		}
+	}
+	st["d_cases"] = nd
 }
